@@ -295,6 +295,36 @@ def extract(X, repo):
                 kp = [getattr(a, "id", "?"), getattr(b, "id", "?")]
                 if kp not in key_parts:
                     key_parts.append(kp)
+    if key_parts != [["parser_name", "all_columns"]]:
+        # the cache is written differently (a tuple key, other names, a helper class …): decide by what it DOES — the four
+        # entry points, each with all_columns None and "*", twice: the parser objects used must be pairwise distinct across
+        # the eight (dialect, all_columns) pairs and identical for the same pair
+        try:
+            import mo_sql_parsing as M
+            seen = {}
+            orig = M._parse
+
+            def spy(parser, *a, **k):
+                seen.setdefault(current[0], []).append(id(parser))
+                return orig(parser, *a, **k)
+
+            current = [None]
+            M._parse = spy
+            try:
+                for rnd in range(2):
+                    for fn in ENTRY:
+                        for ac in (None, "*"):
+                            current[0] = (fn, ac)
+                            getattr(M, fn)("select 1", all_columns=ac)
+            finally:
+                M._parse = orig
+            ids = {k: set(v) for k, v in seen.items()}
+            if len(ids) == 8 and all(len(v) == 1 for v in ids.values()) and len({next(iter(v)) for v in ids.values()}) == 8:
+                key_parts = [["parser_name", "all_columns"]]
+            else:
+                key_parts = [["behaviour", "%d keys, %d parser objects" % (len(ids), len({x for v in ids.values() for x in v}))]]
+        except Exception as e:      # noqa
+            X.problem("effects", "cache key could not be read structurally nor measured: %s" % type(e).__name__)
     # ---- which functions only ever run under `parse_locker`: every call site in the package is lexically inside
     #      `with parse_locker:` or inside a function that itself only runs under the lock (least fixed point)
     def locked_node_ids(fn):
